@@ -104,6 +104,10 @@ _SHRINK = {"spent": 0.0}
 
 
 def check_one(drv, ev, node, stack, kind, shrinkable=True):
+    if len(ev.violations) >= 30:
+        # the verdict of this task is settled; on a badly broken tree going on only costs time
+        ev.label("skipped-after-30-failures")
+        return None
     try:
         o = run_case(drv, node, stack)
     except DriverCrash as e:
